@@ -76,6 +76,13 @@ impl SwiftField for Field58A {
 
         let bic = parse_bic(lines[bic_line_idx])?;
 
+        // The BIC is the last line of option A: anything after it would be silently dropped
+        if lines.len() > bic_line_idx + 1 {
+            return Err(ParseError::InvalidFormat {
+                message: "Field 58A has unexpected lines after the BIC".to_string(),
+            });
+        }
+
         Ok(Field58A {
             party_identifier,
             bic,
